@@ -199,7 +199,7 @@ id). -/
 theorem disambiguation_consistent (tables : List (List Id)) (hs : ∀ t ∈ tables, Sorted t) (key : Id)
     (hlen : ∀ x ∈ tables.flatten, x.length = key.length) (heven : key.length % 2 = 0)
     (hnd : tables.flatten.Nodup) (hk : key ∈ tables.flatten)
-    (hother : ∃ x ∈ tables.flatten, x ≠ key)
+    (hother : ∃ x ∈ tables.flatten, x ≠ key) (h8 : 8 ≤ key.length)
     (dis : List Id) (hdis : ∀ k ∈ dis, k ∈ tables.flatten) :
     resolveCommitWithin (some dis) tables (key.take (shortestWithin (some dis) tables key)) = .single key ∧
     ∀ l < shortestWithin (some dis) tables key,
@@ -221,6 +221,8 @@ theorem disambiguation_consistent (tables : List (List Id)) (hs : ∀ t ∈ tabl
   have hLpos : 0 < shortestLen tables key := by
     have := shortestLen_gt_commonLen tables hs key ho hone; omega
   unfold shortestWithin resolveCommitWithin
+  have hd8 : ∀ k ∈ dis, 8 ≤ k.length := fun k hk => by rw [hlen k (hdis k hk)]; exact h8
+  simp only [idIndexResolve_eq_spec dis hd8, idIndexShortest_eq_spec dis hd8 key h8]
   by_cases hkd : key ∈ dis
   · -- the id is in the disambiguation set: length and resolution both come from the subset
     obtain ⟨L, hLe, hL1, hLall, hLatt⟩ := idIndexShortest_spec hkd
@@ -240,7 +242,7 @@ theorem disambiguation_consistent (tables : List (List Id)) (hs : ∀ t ∈ tabl
       simp [mem_hasId.mpr hk]
     · intro l hl
       by_cases hl0 : l = 0
-      · subst hl0; simp [idIndexResolve]
+      · subst hl0; simp [idIndexResolveSpec]
       · rcases hLatt with h | ⟨k, hkk, hne, he⟩
         · omega
         · have hle := commonLen_le_left key k
@@ -260,7 +262,7 @@ theorem disambiguation_consistent (tables : List (List Id)) (hs : ∀ t ∈ tabl
       rw [idIndexResolve_none (take_ne _ hLpos) hno]
       exact hres
     · intro l hl
-      cases hr : idIndexResolve dis (key.take l) with
+      cases hr : idIndexResolveSpec dis (key.take l) with
       | noMatch => simp only; rw [hamb l hl]; simp
       | ambiguous => simp
       | single id =>
@@ -271,6 +273,15 @@ theorem disambiguation_consistent (tables : List (List Id)) (hs : ∀ t ∈ tabl
         · simp [hne]
         · simp
 
+/-- `IdIndex` (the table of 4-byte short keys, `partition_point`, chunk scan, left/right neighbours
+by short key) answers as the key set it was built from, for *every* arrangement of the entries
+that is sorted by short key — the order `sort_unstable_by_key` leaves open does not matter. -/
+theorem id_index_table_spec (I keys : List Id) (hmem : ∀ x, x ∈ I ↔ x ∈ keys) (hs : SortedS I)
+    (hlen : ∀ k ∈ keys, 8 ≤ k.length) :
+    (∀ p, idIndexResolveT I p = idIndexResolveSpec keys p) ∧
+    (∀ key, 8 ≤ key.length → idIndexShortestT I key = idIndexShortestSpec keys key) :=
+  ⟨fun p => idIndexResolveT_spec hmem hs hlen p, fun key hk => idIndexShortestT_spec hmem hs hlen key hk⟩
+
 /-- Without a disambiguation set `IdPrefixIndex` is the repo-wide index. -/
 theorem no_disambiguation (tables : List (List Id)) (key p : Id) :
     shortestWithin none tables key = shortestLen tables key ∧
@@ -280,7 +291,7 @@ theorem no_disambiguation (tables : List (List Id)) (key p : Id) :
 id; a shorter prefix is ambiguous or resolves (through the disambiguation set) to another change. -/
 theorem change_disambiguation_consistent (idx : Index) (heads : List Nat) (segs : List Seg) (key : Id)
     (hlen : ∀ x ∈ allChanges segs, x.length = key.length) (heven : key.length % 2 = 0)
-    (hk : key ∈ allChanges segs) (hother : ∃ x ∈ allChanges segs, x ≠ key)
+    (hk : key ∈ allChanges segs) (hother : ∃ x ∈ allChanges segs, x ≠ key) (h8 : 8 ≤ key.length)
     (dis : List Id) (hdis : ∀ k ∈ dis, k ∈ allChanges segs) :
     resolveChangeWithin (some dis) idx heads segs (key.take (shortestWithin (some dis) (changeTables segs) key))
       = resolveChangeTargets idx heads segs key ∧
@@ -316,6 +327,8 @@ theorem change_disambiguation_consistent (idx : Index) (heads : List Nat) (segs 
   have hLpos : 0 < shortestLen (changeTables segs) key := by
     have := shortestLen_gt_commonLen _ hs key ((hflat o).mpr ho) hone; omega
   unfold shortestWithin resolveChangeWithin
+  have hd8 : ∀ k ∈ dis, 8 ≤ k.length := fun k hk => by rw [hlen k (hdis k hk)]; exact h8
+  simp only [idIndexResolve_eq_spec dis hd8, idIndexShortest_eq_spec dis hd8 key h8]
   by_cases hkd : key ∈ dis
   · obtain ⟨L, hLe, hL1, hLall, hLatt⟩ := idIndexShortest_spec hkd
     simp only [hLe]
@@ -334,7 +347,7 @@ theorem change_disambiguation_consistent (idx : Index) (heads : List Nat) (segs 
     · intro l hl
       left
       by_cases hl0 : l = 0
-      · subst hl0; simp [idIndexResolve]
+      · subst hl0; simp [idIndexResolveSpec]
       · rcases hLatt with h | ⟨k, hkk, hne, he⟩
         · omega
         · have hle := commonLen_le_left key k
@@ -352,7 +365,7 @@ theorem change_disambiguation_consistent (idx : Index) (heads : List Nat) (segs 
       rw [idIndexResolve_none (take_ne _ hLpos) hno]
       exact hsame
     · intro l hl
-      cases hr : idIndexResolve dis (key.take l) with
+      cases hr : idIndexResolveSpec dis (key.take l) with
       | noMatch => left; simp only; exact hamb l hl
       | ambiguous => left; rfl
       | single id =>
